@@ -726,7 +726,7 @@ impl Prop for C03 {
                 v.push(k);
             }
         }
-        for k in ["api.sample_loop", "api.sample_n", "api.sample_matrix", "api.small_bulk_calls", "seeding.seed_clock", "seeding.seed_small", "seeding.seed_set", "config.fault_free", "config.fault_injecting", "config.reached_by_update", "config.off_grid", "fault.rng_zero", "fault.rng_max", "fault.rng_tiny", "fault.rng_half", "fault.rng_tail", "fault.rng_streak", "fault.rng_pair", "fault.rng_zig_edge", "config.default_ctor", "config.preceded_by_other_object", "config.two_live_objects", "config.after_rejected_bulk_request", "config.mvn_preceded_by_sibling", "config.fill_policy_active", "config.mvn_structured", "check.dkw", "check.tail_points", "check.bulk_advances_stream", "check.mvn_projection", "check.mvn_second_moments", "check.serial_independence", "dpc.Normal.1", "dpc.Normal.2", "dpc.Normal.3+", "dpc.Poisson.4+", "dpc.Binomial.4+", "dpc.Gamma.4+"] {
+        for k in ["api.sample_loop", "api.sample_n", "api.sample_matrix", "api.small_bulk_calls", "seeding.seed_clock", "seeding.seed_small", "seeding.seed_set", "config.fault_free", "config.fault_injecting", "config.reached_by_update", "config.off_grid", "fault.rng_zero", "fault.rng_max", "fault.rng_tiny", "fault.rng_half", "fault.rng_tail", "fault.rng_streak", "fault.rng_pair", "fault.rng_zig_edge", "config.default_ctor", "config.preceded_by_other_object", "config.two_live_objects", "config.after_rejected_bulk_request", "config.mvn_preceded_by_sibling", "config.fill_policy_active", "config.mvn_structured", "check.dkw", "check.tail_points", "check.bulk_advances_stream", "check.bulk_count_at_block_sizes", "check.mvn_projection", "check.mvn_second_moments", "check.serial_independence", "dpc.Normal.1", "dpc.Normal.2", "dpc.Normal.3+", "dpc.Poisson.4+", "dpc.Binomial.4+", "dpc.Gamma.4+"] {
             v.push(k.to_string());
         }
         v
@@ -877,6 +877,23 @@ fn exec_1d(case: &Case, law: &str, p: &[f64], reg: &str, st: &mut Stats, h: &mut
                         if let Ok(w) = catch(|| obj.sample_n(m)) {
                             if w.len() == m && slice_bits_eq(&w, &v[..m]).is_none() {
                                 return mk("bulk_stream", "bulk_calls_repeat", format!("{}({:?}): two consecutive sample_n calls returned the same {} values: the second call does not continue the random stream", law, p, m));
+                            }
+                        }
+                        // "n independent draws" at block-like request sizes (powers of two, their
+                        // multiples and neighbours): the count must be exact there too
+                        const BLOCKY: [usize; 14] = [64, 1024, 4096, 8192, 16384, 32768, 65536, 131072, 196608, 49152, 65535, 65537, 98304, 1 << 18];
+                        let m2 = BLOCKY[(case.aux.0 as usize) % BLOCKY.len()];
+                        st.inc("check.bulk_count_at_block_sizes");
+                        alea::sim::set_budget(DRAW_BUDGET + 256 * m2 as u64);
+                        match catch(|| obj.sample_n(m2)) {
+                            Ok(w) => {
+                                if w.len() != m2 {
+                                    return mk("bulk_shape", "wrong_count", format!("{}({:?}).sample_n({}) returned {} values", law, p, m2, w.len()));
+                                }
+                            }
+                            Err(e) => {
+                                let class = if is_budget_panic(&e) { "nontermination" } else { "panic" };
+                                return mk("sampling_terminates", class, format!("{}({:?}).sample_n({}): {}", law, p, m2, e));
                             }
                         }
                     }
